@@ -162,6 +162,14 @@ pub fn run(ctx: &mut Ctx) {
         let mut setters_ok = true;
         if !defaults {
             setters_ok &= iw.set_duration(&wd).is_ok();
+            {
+                // a call that is rejected (one weight too many, sum still 1) must leave the weights as they were
+                let mut bad = vec![0.0];
+                bad.extend_from_slice(&wd);
+                if iw.set_duration(&bad).is_err() {
+                    ctx.count("rejected_set_duration_after_the_valid_one", 1.0);
+                }
+            }
             match order {
                 0 => {
                     for i in 0..nstream {
